@@ -46,13 +46,14 @@ static size_t mkval(unsigned char *b, int v) {
     case 3: return 0;
     case 4: memcpy(b, "a\0b\0", 4); return 4;
     case 5: memcpy(b, "str\0", 4); return 4;
+    case 6: memcpy(b, "a\0c\0", 4); return 4;          /* same size as 4 and equal up to the first NUL */
     default: b[0] = (unsigned char) v; return 1;
     }
 }
 static int valid_(const void *p, size_t n) {
     if (!p) return n == 0 ? 3 : 0;
     unsigned char t[64];
-    for (int v = 1; v <= 5; v++) { size_t tn = mkval(t, v); if (tn == n && (n == 0 || !memcmp(t, p, n))) return v; }
+    for (int v = 1; v <= 6; v++) { size_t tn = mkval(t, v); if (tn == n && (n == 0 || !memcmp(t, p, n))) return v; }
     return -1;
 }
 static int cmp_int(const void *a, size_t an, const void *b, size_t bn) {
@@ -193,7 +194,9 @@ int main(int argc, char **argv) {
                     /* getstr has no size output: usable when the stored value is a C string */
                     char *sp = T->getstr(T, (char *) kb, newmem);
                     if (sp && vh_failed == 0) {
+                        long c1 = cmps;
                         size_t cur_sz = 0; void *chk = T->get(T, (char *) kb, &cur_sz, false);
+                        cmps = c1;                  /* the size lookup is the harness's, not part of the call under test */
                         sz = chk ? cur_sz : 0; p = sp;
                     } else { p = sp; sz = sp ? strlen(sp) + 1 : 0; }
                 } else if (profile == 0 || profile == 3) p = T->get(T, (char *) kb, &sz, newmem);
